@@ -109,6 +109,7 @@ class Contract:
         self.snapshots = dict(kw.pop("snapshots", {}))  # label -> callee simple name (heap snapshot after its first call)
         self.variant = kw.pop("variant", None)  # termination measure for recursive calls
         self.ensures_locals = _named(kw.pop("ensures_locals", {}), "lpost")  # postconditions that may mention final locals
+        self.variant_id = kw.pop("variant_id", None)  # a second contract on the same function (e.g. an assumed view used by one caller)
         self.shards = kw.pop("shards", 1)  # split this function's obligations over several worker processes
         self.axioms = dict(kw.pop("axioms", {}))  # assumed facts (each listed in the evidence as trusted)
         self.emits = kw.pop("emits", None)  # frame for effect events: names this function may emit (None: unspecified)
@@ -132,7 +133,7 @@ def _named(x, prefix):
 
 def contract(target, prop, params, **kw):
     c = Contract(target, prop, params, **kw)
-    key = kw.get("key") or target
-    REGISTRY[(prop, target)] = c
+    c.key = target + ("#" + c.variant_id if c.variant_id else "")
+    REGISTRY[(prop, c.key)] = c
     BY_PROP.setdefault(prop, []).append(c)
     return c
